@@ -49,10 +49,13 @@ def realise(t, vs):
     return Functor(t[1], [realise(a, vs) for a in t[2]])
 
 
-def spec_for(nb):
+BIND_DEEP = [['F1', 'F2'], ['F1', 'v1', 'int'], ['v1', 'v2', 'int']]     # first binding: a structure with variables at depth 2
+
+
+def spec_for(nb, deep=False):
     spec = []
     k = 0
-    for levels in [BIND] * nb:
+    for levels in ([BIND_DEEP] if deep else [BIND]) + [BIND] * (nb - 1):
         for size in slot_alphabet_sizes(levels):
             spec.append(('k%d' % k, 'int', '0 <= k%d <= %d' % (k, size - 1)))
             k += 1
@@ -65,8 +68,8 @@ def spec_for(nb):
     return spec, nc
 
 
-def make_body(template, nb, through_findall, info):
-    spec, nc = spec_for(nb)
+def make_body(template, nb, through_findall, info, deep=False):
+    spec, nc = spec_for(nb, deep)
     rT = TEMPLATES[template]
     ix = ch.index_of(spec)
 
@@ -77,7 +80,7 @@ def make_body(template, nb, through_findall, info):
         T = realise(rT, vs)
         binds = []
         for j in range(nb):
-            t, r = dec.term(BIND)
+            t, r = dec.term(BIND_DEEP if (deep and j == 0) else BIND)
             w = vals[ix['w%d' % j]]
             which = 0
             for i in range(NV):
@@ -212,8 +215,8 @@ def _has_var(t):
 def units(tier, seed):
     us = []
 
-    def add(uid, template, nb, findall, fixed, timeout, ob):
-        us.append(dict(id=uid, template=template, nb=nb, findall=findall, fixed=fixed, ob=ob, timeout=timeout, weight=timeout / 4,
+    def add(uid, template, nb, findall, fixed, timeout, ob, deep=False):
+        us.append(dict(id=uid, template=template, nb=nb, findall=findall, fixed=fixed, ob=ob, timeout=timeout, weight=timeout / 4, deep=deep,
                        bounds='T = %s; <=%d bindings  V_w = {v0 v1 v2 int f(v0|v1|v2|int)}  in symbolic order; fixed %r' % (template, nb, fixed)))
     names = list(TEMPLATES)
     if tier == 'quick':
@@ -224,7 +227,13 @@ def units(tier, seed):
             add('a.T=%s.nb3.v0=f(v1)' % t, t, 3, False, {'w0': 0, 'k0': 4, 'k1': 1, 'nb': 3}, 300, 'C15.a')
         for t in ('f(v0)', 'g(v0,v1)'):
             add('b.findall.T=%s.nb2' % t, t, 2, True, {}, 300, 'C15.b')
+        # outer binding first, to a structure whose variables sit at depth 2; the inner variable is bound afterwards
+        add('a.T=v0.nb2.deep', 'v0', 2, False, {'w0': 0, 'nb': 2}, 300, 'C15.a', deep=True)
+        add('a.T=g(v0,v1).nb2.deep', 'g(v0,v1)', 2, False, {'w0': 0, 'nb': 2}, 300, 'C15.a', deep=True)
+        add('b.findall.T=f(v0).nb2.deep', 'f(v0)', 2, True, {'w0': 0, 'nb': 2}, 300, 'C15.b', deep=True)
     else:
+        for t in names:
+            add('a.T=%s.nb3.deep' % t, t, 3, False, {'w0': 0}, 1500, 'C15.a', deep=True)
         for t in names:
             for w0 in range(NV):
                 for k0 in range(len(BIND[0])):
@@ -238,5 +247,5 @@ def units(tier, seed):
 
 def build(u):
     info = {}
-    spec, body = make_body(u['template'], u['nb'], u['findall'], info)
+    spec, body = make_body(u['template'], u['nb'], u['findall'], info, u.get('deep', False))
     return ch.harness_from_spec(u['id'], spec, u['fixed'], body, info=info)
